@@ -22,6 +22,7 @@ func init() {
 			"the recorder reads and the restorer writes every step-state field the status names (C08.persisted-fields)",
 			"a live agent always answers running (C08.live-is-running); only a socket timeout is an error for the status getter, every other failure means not running — so a killed run can be started again (C16.probe-table shared)",
 			"the daemon refuses a start only for a DAG that is really running or already ran in that minute (C09.start-guard shared)",
+			"the line reader under ParseFile has no fixed cap on the length of a record (C08.unbounded-line, shared with C06.unbounded-line)",
 		},
 		NotDec: []string{"crash points; equality of the node table with what actually happened", "F15 (empty newest file) is owned by C07", "the 100 ms delayed first write racing the end of very short runs"},
 	})
@@ -39,6 +40,7 @@ func runC08(e *Env) {
 	c06CalendarDay(e, "C08.day-is-calendar-day")          // the latest-status query finds a run by the day its file name carries
 	c16ClientErrors(e, "C08.client-errors-are-transport") // the status getter reads every non-timeout error as `not running`
 	c08PersistedFields(e, s)
+	c06UnboundedLine(e, "C08.unbounded-line") // a run whose one-line record exceeds a reader's cap can no longer be reported once its process is gone
 	c08LiveIsRunning(e)
 	c08ServeUntilShutdown(e, "C08.serve-until-shutdown")
 	c16ProbeTable(e)
